@@ -87,7 +87,7 @@ theorem Solo.step {c : Cfg} {L : Nat} (_hwf : WF c L) {prog : List Op} (h1 : Loc
         ⟨tgt, tag, p, hp, hprog, hc, h⟩ | ⟨tgt, tag, p, hp, hprog, hc, h⟩ |
         ⟨a, p, f, fs, hp, hprog, hf, h⟩ | ⟨r, p, fs, hp, hprog, hf, h⟩ |
         ⟨r, p, x, f, fs, hp, hprog, hf, h⟩ | ⟨m, xs, p, f, fs, hp, hprog, hf, h⟩ |
-        ⟨m, p, f, fs, hp, hprog, hf, h⟩
+        ⟨m, p, f, fs, hp, hprog, hf, h⟩ | ⟨p, f, fs, hp, hprog, hf, h⟩
     · rw [h]; exact hS
     · -- enter x
       obtain ⟨e1, _, _, e4, _⟩ := enterCtx_some he
@@ -171,6 +171,13 @@ theorem Solo.step {c : Cfg} {L : Nat} (_hwf : WF c L) {prog : List Op} (h1 : Loc
         · exact hS.cm i l
       · have := hS.cur l
         simpa [held, hp] using this
+    · -- snapshot (C06: Op.snap changes nothing but the program counter)
+      rw [h]
+      refine ⟨fun t ht => by simp [ht, hS.idle t ht], fun m l => by simpa using hS.cm m l,
+        fun m xs hm => hS.pr m xs (by rw [hprog]; exact List.mem_cons_of_mem _ (by simpa using hm)),
+        fun l => ?_⟩
+      have := hS.cur l
+      simpa [held, hp] using this
   · rw [step_idle c eng s t (by rw [hS.idle t ht]) (by rw [hS.idle t ht])]
     exact hS
 
@@ -264,6 +271,12 @@ theorem solo_progress {c : Cfg} (eng : Nat → Nat → Nat) {s : LState} (hI : I
         exact Or.inr ⟨hf, _, _, hprog, fun _ _ h => by cases h⟩
       · intro h; exact absurd h (emit_ne _ _ _ (by simp))
     · rename_i m p hprog
+      split
+      · rename_i hf
+        intro _
+        exact Or.inr ⟨hf, _, _, hprog, fun _ _ h => by cases h⟩
+      · intro h; exact absurd h (emit_ne _ _ _ (by simp))
+    · rename_i p hprog
       split
       · rename_i hf
         intro _
